@@ -12,12 +12,21 @@
 #include <ArduinoJson/Strings/StringAdapters.hpp>
 #include <ArduinoJson/Variant/VariantContent.hpp>
 
+#ifdef BBLANCHON_ARDUINOJSON_VERIF
+namespace verif {
+struct Inspector;
+}
+#endif
+
 ARDUINOJSON_BEGIN_PRIVATE_NAMESPACE
 
 template <typename T>
 T parseNumber(const char* s);
 
 class VariantData {
+#ifdef BBLANCHON_ARDUINOJSON_VERIF
+  friend struct ::verif::Inspector;
+#endif
   VariantContent content_;  // must be first to allow cast from array to variant
   VariantType type_;
   SlotId next_;
